@@ -441,10 +441,13 @@ func scenLoopEnds(kind faultKind, viaCtx bool) *connRun {
 // the retry-tagged method used by scenOutage: "retry" (with a context parameter) or "retrync" (without one)
 var outageRetryKind = "retry"
 
+// set around a scenOutage call: WithNoReconnect is listed before WithReconnectBackoff
+var outageNoReconnectFirst bool
+
 func scenOutage(kind faultKind, k int, errorsOn bool, noReconnect bool, secondFault bool) *connRun {
 	minB := 15 * time.Millisecond
-	e := newConnEnv(connOpts{errors: errorsOn, noReconnect: noReconnect, backoffMin: minB, backoffMax: 60 * time.Millisecond})
-	params := map[string]interface{}{"fault": kind.String(), "failed_redials": k, "errors": errorsOn, "no_reconnect": noReconnect,
+	e := newConnEnv(connOpts{errors: errorsOn, noReconnect: noReconnect, noReconnectFirst: outageNoReconnectFirst, backoffMin: minB, backoffMax: 60 * time.Millisecond})
+	params := map[string]interface{}{"fault": kind.String(), "failed_redials": k, "errors": errorsOn, "no_reconnect": noReconnect, "no_reconnect_option_first": outageNoReconnectFirst,
 		"second_fault": secondFault, "heals": !noReconnect, "backoff_min_ms": minB.Milliseconds()}
 	w := e.call("echo", context.Background())
 	e.waitEv(2*time.Second, func(ev tev) bool { return ev.Point == "call.return" && fmt.Sprint(ev.Args[0]) == fmt.Sprint(w) })
@@ -610,6 +613,12 @@ func connFamily(seed uint64, tier string, args []string) {
 		emit(scenFault(faultFIN, "idle", "retrync", "retrync", true, true))
 		emit(scenFault(faultRST, "mid-resp", "retrync", "echo", true, false))
 		emit(scenFault(faultCloseFrame, "idle", "echo", "retrync", true, true))
+		// tags whose value is not "true" do not tag: such a method is never re-sent
+		emit(scenFault(faultFIN, "idle", "retryno", "retryno", true, true))
+		emit(scenFault(faultRST, "idle", "retry0", "retry0", true, false))
+		// a blackhole seen by a client whose pings are off and whose timeout is on: the read deadline alone must notice
+		emit(scenKeepSilent(0, 300*time.Millisecond, "during-call", false))
+		emit(scenKeepSilent(0, 250*time.Millisecond, "settled", true))
 		emit(scenFault(faultRST, "mid-resp", "plain", "plain", true, false))
 		for _, k := range []faultKind{faultFIN, faultRST} {
 			emit(scenLoopEnds(k, false))
@@ -632,6 +641,9 @@ func connFamily(seed uint64, tier string, args []string) {
 			}
 			emit(scenOutage(k, 0, true, true, false))
 			emit(scenOutage(k, 0, false, true, false))
+			outageNoReconnectFirst = true
+			emit(scenOutage(k, 0, true, true, false))
+			outageNoReconnectFirst = false
 		}
 		// the retry-tagged method has no context parameter
 		outageRetryKind = "retrync"
